@@ -409,6 +409,11 @@ class SBytes(_SeqBase):
     def __init__(self, items):
         self._items = tuple(items)
 
+    def __hash__(self):
+        # used as a dict key / set member: enumerate the feasible contents (one path each), so
+        # that value-based lookups stay exact; long symbolic strings hit the fan-out bound
+        return hash(_bytes(operator.index(i) for i in self._items))
+
     def _get_items(self):
         return list(self._items)
 
